@@ -18,6 +18,7 @@
 namespace sim
 {
     const char* const harness_name = "sysenv";
+    const bool caller_threads_enabled = false;
     enum Op { OP_EXE = 0, OP_PREFIX, OP_ENDIAN, OP_COUNT };
     const char* const op_names[] = {"exe_path", "prefix_path", "endianness"};
     const int op_count = OP_COUNT;
